@@ -1182,6 +1182,14 @@ class FileBuilder:
         except OSError:
             return False
 
+        if (operation.raised and
+                self._simple_operation_executor.exists(
+                    filename, created_files)):
+            # A file or directory has appeared at the location of an output
+            # file that we failed to build. Executing the operation would
+            # remove the file or raise an IsADirectoryError.
+            return False
+
         created_files.started_building_file(filename)
 
         if not self._are_suboperations_cached(operation, created_files):
